@@ -174,9 +174,7 @@ def parse_answers(out):
         if buf is not None:
             buf += " " + s
             if buf.count("(") <= buf.count(")"):
-                vals = {}
-                for m in re.finditer(r"\((a|b) (\(- (\d+)\)|(\d+))\)", buf):
-                    vals[m.group(1)] = -int(m.group(3)) if m.group(3) else int(m.group(4))
+                vals = _model_vals(buf)
                 if ans and "a" in vals and "b" in vals:
                     models[-1] = (vals["a"], vals["b"])
                 buf = None
@@ -195,13 +193,27 @@ def parse_answers(out):
         elif s.startswith("((") :
             buf = s
             if buf.count("(") <= buf.count(")"):
-                vals = {}
-                for m in re.finditer(r"\((a|b) (\(- (\d+)\)|(\d+))\)", buf):
-                    vals[m.group(1)] = -int(m.group(3)) if m.group(3) else int(m.group(4))
+                vals = _model_vals(buf)
                 if ans and "a" in vals and "b" in vals:
                     models[-1] = (vals["a"], vals["b"])
                 buf = None
     return ans, models
+
+
+def _model_vals(buf):
+    import re
+    vals = {}
+    for m in re.finditer(r"\((a|b) (\(- (\d+)\)|(\d+)|#x([0-9a-fA-F]+)|#b([01]+))\)", buf):
+        if m.group(3):
+            v = -int(m.group(3))
+        elif m.group(4):
+            v = int(m.group(4))
+        else:
+            v = int(m.group(5), 16) if m.group(5) else int(m.group(6), 2)
+            if v >> (mir.WBV - 1):
+                v -= 1 << mir.WBV
+        vals[m.group(1)] = v
+    return vals
 
 
 def spec_py(a, b, f, signed):
